@@ -75,6 +75,7 @@ from ._state_token import (
     _resolve_state_cls,
     _ResolvedCall,
     _StateInfo,
+    _token_rejected,
 )
 
 if TYPE_CHECKING:
@@ -1286,10 +1287,9 @@ def _resolve_call_from_token(
     # authenticated, so this is belt-and-braces against a client pairing two
     # of its own tokens from different streams.
     if not secrets.compare_digest(token_call_id, expected_call_id):
-        raise _RpcHttpError(
-            RuntimeError("State token does not belong to the supplied call token"),
-            status_code=HTTPStatus.BAD_REQUEST,
-        )
+        # Two genuine tokens from different streams: rejected exactly like any
+        # other token failure, so the pairing check is not an oracle either.
+        raise _token_rejected()
 
     try:
         output_schema = pa.ipc.read_schema(pa.py_buffer(schema_bytes))
